@@ -1,5 +1,5 @@
 """C01: decided on the L1 machine (theorem Ivy.Props.C01.monitor_accepts) + T-replay correspondence."""
-from . import l1
+from . import l1, loopgen
 PROP = "C01"
 LEANCHECK_MODULES = ["Ivy.L1.Machine", "Ivy.L1.Exec", "Ivy.Mon.C01", "Ivy.L1.ProofsC01", "Ivy.Props.C01"]
 FAMILIES = ['storm', 'mix']
@@ -8,6 +8,11 @@ SANS = ['heap-use-after-free', 'SEGV', 'double-free', 'attempting free']
 RULE = ("scenario families ['storm', 'mix'] (see vlib/loopgen.py) rotating over the four poll methods and the fault configurations; every log is "
         "replayed through the Lean machine (every library record must be predicted) and through the Lean monitor(s) ['C01']; sanitizer "
         "classes counted as violations of this property: ['heap-use-after-free', 'SEGV', 'double-free', 'attempting free']. non-trivial = a handler unregistered (and the scenario then freed) an object other than itself, or a one-shot object was freed inside its own handler; distinct by hash of the log")
+
+RETRACT_RULE = ("; plus the ENUMERATED family 'retract' (264 scenarios per run, not sampled): 4 methods x {descriptor, cross-thread iv_event, iv_event_raw} "
+                "handler dispatched first x 10 manipulations of another source collected in the same iteration (handlers cleared then unregistered, "
+                "freed, recycled, same struct re-registered, bands dropped and re-added) x both arrival orders, and failed registration attempts "
+                "followed by a successful registration of the same, not re-initialised, struct")
 
 
 def nontrivial(log):
@@ -22,7 +27,8 @@ def nontrivial(log):
 
 
 def run(tier, seed, proof):
-    return l1.run_property(PROP, tier, seed, proof, FAMILIES, MONS, SANS, nontrivial, RULE)
+    return l1.run_property(PROP, tier, seed, proof, FAMILIES, MONS, SANS, nontrivial, RULE + RETRACT_RULE,
+                           extra_cases=lambda tier, seed: loopgen.retract_cases(seed))
 
 
 def search(tier, seed, proof):
